@@ -85,6 +85,9 @@ impl<'a> Inliner<'a> {
                     let Some((_, Attr::Graph(body))) = n.attrs.iter().find(|(k, _)| k == "body") else { return None };
                     let ncarried = n.inputs.len().checked_sub(2)?;
                     free_vars(body, &mut forced);
+                    // the operator itself needs every explicit input (the initial carried values), whether or
+                    // not the requested outputs depend on them
+                    forced.extend(n.inputs.iter().skip(2).filter(|i| !i.is_empty()).cloned());
                     let (body_nodes, body_inits, body_forced) = self.flatten(body)?;
                     let mut carried: Vec<String> = n.inputs[2..].to_vec();
                     let nscan = body.outputs.len().checked_sub(1 + ncarried)?;
